@@ -112,6 +112,7 @@ def RO {α : Type} (m : M (ATab V) α) : Prop := ∀ s, (m s).2 = s
 
 theorem ro_pure {α : Type} (x : α) : RO (V := V) (pure x) := fun _ => rfl
 theorem ro_throw {α : Type} (e : Err) : RO (V := V) (M.throw e : M (ATab V) α) := fun _ => rfl
+theorem ro_ofExcept {α : Type} (r : Except Err α) : RO (V := V) (M.ofExcept r : M (ATab V) α) := fun _ => rfl
 theorem ro_bind {α β : Type} {m : M (ATab V) α} {f : α → M (ATab V) β} (h1 : RO m) (h2 : ∀ x, RO (f x)) :
     RO (m >>= f) := by
   intro s
@@ -247,22 +248,44 @@ theorem binaryVoid_result (o : Ops V) (k : BOp) (in1 in2 out : String) (a a' : A
     (hA : AInv n a) (h : binaryVoid (σ := ATab V) o k in1 in2 out a = (.ok temp, a')) :
     reserved out = false ∧ lookup a'.cols out = some temp := by
   refine void_pattern out o.zero (fun n => M.mapL (List.range n) fun i =>
-    getObsA o in1 i >>= fun x => getObsA o in2 i >>= fun y => pure (k.f o x y)) ?_ ?_ a a' temp hA h
+    getObsA o in1 i >>= fun x => getObsA o in2 i >>= fun y => M.ofExcept (k.f o x y)) ?_ ?_ a a' temp hA h
   · intro n s
-    exact (mapL_ro _ _ (fun i => ro_bind (ro_getObs o in1 i) (fun x => ro_bind (ro_getObs o in2 i) (fun y => ro_pure _))) s).1
+    exact (mapL_ro _ _ (fun i => ro_bind (ro_getObs o in1 i) (fun x => ro_bind (ro_getObs o in2 i) (fun y => ro_ofExcept _))) s).1
   · intro n s t _ ht
-    have := (mapL_ro (List.range n) _ (fun i => ro_bind (ro_getObs o in1 i) (fun x => ro_bind (ro_getObs o in2 i) (fun y => ro_pure _))) s).2 t ht
+    have := (mapL_ro (List.range n) _ (fun i => ro_bind (ro_getObs o in1 i) (fun x => ro_bind (ro_getObs o in2 i) (fun y => ro_ofExcept _))) s).2 t ht
     simpa using this
 
 theorem scalarVoid_result (o : Ops V) (k : SOp) (inp : String) (arg : V) (out : String) (a a' : ATab V)
     (temp : List V) (hA : AInv n a) (h : scalarVoid (σ := ATab V) o k inp arg out a = (.ok temp, a')) :
     reserved out = false ∧ lookup a'.cols out = some temp := by
   refine void_pattern out o.zero (fun n => M.mapL (List.range n) fun i =>
-    getObsA o inp i >>= fun x => pure (k.f o x arg)) ?_ ?_ a a' temp hA h
+    getObsA o inp i >>= fun x => M.ofExcept (k.f o x arg)) ?_ ?_ a a' temp hA h
   · intro n s
-    exact (mapL_ro _ _ (fun i => ro_bind (ro_getObs o inp i) (fun x => ro_pure _)) s).1
+    exact (mapL_ro _ _ (fun i => ro_bind (ro_getObs o inp i) (fun x => ro_ofExcept _)) s).1
   · intro n s t _ ht
-    have := (mapL_ro (List.range n) _ (fun i => ro_bind (ro_getObs o inp i) (fun x => ro_pure _)) s).2 t ht
+    have := (mapL_ro (List.range n) _ (fun i => ro_bind (ro_getObs o inp i) (fun x => ro_ofExcept _)) s).2 t ht
+    simpa using this
+
+theorem applyVoid_result (o : Ops V) (f : V → Except Err V) (inp out : String) (a a' : ATab V)
+    (temp : List V) (hA : AInv n a) (h : applyVoid (σ := ATab V) o f inp out a = (.ok temp, a')) :
+    reserved out = false ∧ lookup a'.cols out = some temp := by
+  refine void_pattern out o.zero (fun n => M.mapL (List.range n) fun i =>
+    getObsA o inp i >>= fun x => M.ofExcept (f x)) ?_ ?_ a a' temp hA h
+  · intro n s
+    exact (mapL_ro _ _ (fun i => ro_bind (ro_getObs o inp i) (fun x => ro_ofExcept _)) s).1
+  · intro n s t _ ht
+    have := (mapL_ro (List.range n) _ (fun i => ro_bind (ro_getObs o inp i) (fun x => ro_ofExcept _)) s).2 t ht
+    simpa using this
+
+theorem shiftCircular_result (o : Ops V) (inp : String) (arg : V) (out : String) (a a' : ATab V)
+    (temp : List V) (hA : AInv n a) (h : shiftCircular (σ := ATab V) o inp arg out a = (.ok temp, a')) :
+    reserved out = false ∧ lookup a'.cols out = some temp := by
+  refine void_pattern out o.zero (fun n => M.mapL (List.range n) fun i =>
+    (M.ofExcept (o.shiftIdx arg i n) : M (ATab V) Nat) >>= fun j => getObsA o inp j) ?_ ?_ a a' temp hA h
+  · intro n s
+    exact (mapL_ro _ _ (fun i => ro_bind (ro_ofExcept _) (fun j => ro_getObs o inp j)) s).1
+  · intro n s t _ ht
+    have := (mapL_ro (List.range n) _ (fun i => ro_bind (ro_ofExcept _) (fun j => ro_getObs o inp j)) s).2 t ht
     simpa using this
 
 theorem foldL_ro_inv {α β : Type} (l : List α) (f : β → α → M (ATab V) β) (I : β → Nat → Prop)
